@@ -46,14 +46,24 @@ def step (st : St) (op impl : List String) : St × List String :=
     let v := match st.aborter with
       | some x =>
         -- a stream the aborting side had already closed ends with EOF, as usual
-        -- (a Close() racing with the Abort() on the same side may win: then no ABORT is sent)
-        if nat side == 1 - x && impl.head? != some "short" && impl.head? != some "deadline" && !st.abortLost && !st.closeCalled.contains x && !st.shutdownOk.contains (nat side) && !st.closes.contains (x, nat si) && !((" ".intercalate impl).splitOn "verif-abort-reason").length ≥ 2 then
+        -- (a Close() racing with the Abort() on the same side may win: then no ABORT is sent; and an Abort() called on an
+        -- association whose own Shutdown() had already completed finds it closed: nothing is sent either)
+        if nat side == 1 - x && impl.head? != some "short" && impl.head? != some "deadline" && !st.abortLost && !st.closeCalled.contains x && !st.shutdownOk.contains (nat side) && !st.shutdownOk.contains x && !st.closes.contains (x, nat si) && !((" ".intercalate impl).splitOn "verif-abort-reason").length ≥ 2 then
           [s!"[C09] side {side} stream {si}: read failed with `{" ".intercalate impl}` after the peer's Abort; the error does not carry the abort cause"]
         else []
       | none => []
     (if impl == ["EOF"] then { st with eofs := (nat side, nat si) :: st.eofs } else st, v)
   | ["inject", kind, _side, _at] => ({ st with injected := kind }, [])
   | ["abortcall", side] => ({ st with aborter := some (nat side) }, [])
+  | ["idleread", side, si] =>
+    -- a reader that was idle (deadline armed, no Read blocked) during the teardown, came back after the deadline had
+    -- expired, set a new deadline and read: it must get the stream's TERMINAL error at once
+    match impl with
+    | r :: t :: _ =>
+      (st, (if r == "read-deadline-exceeded" then [s!"[C09] side {side} stream {si}: after the teardown a read keeps failing with the read-deadline error: the terminal (close / abort) error of the stream was replaced by a late deadline expiry"] else []) ++
+           (if nat t > 6000 then [s!"[C09] side {side} stream {si}: a read issued after the teardown returned only after {t} ms"] else []))
+    | _ => (st, [])
+  | ["idleunblocked"] => (st, [s!"[C09] a read issued after the teardown (new deadline set after an old one expired) never returned: the terminal error of the stream is gone"])
   | ["readerspin", side, si] =>
     (st, [s!"[C18,C09] side {side} stream {si}: more than 5000 consecutive read-deadline errors on a stream that will never get data or an error ({" ".intercalate impl})"])
   | ["closecall", side] => ({ st with closeCalled := nat side :: st.closeCalled }, [])
@@ -112,7 +122,7 @@ def step (st : St) (op impl : List String) : St × List String :=
     let to_ := nat to
     match st.pkts[((1 - to_), nat idx)]? with
     | some summary =>
-      let st := if summary.contains "SHUTDOWNCOMPLETE" then { st with sdDone := to_ :: st.sdDone } else st
+      let st := if summary.contains "SHUTDOWNCOMPLETE" || summary.contains "SHUTDOWNACK" then { st with sdDone := to_ :: st.sdDone } else st
       if summary.any isDataTok && !st.ended && (st.awaitingAck[to_]!).isNone then
         ({ st with awaitingAck := st.awaitingAck.set! to_ (some (nat t)) }, [])
       else (st, [])
@@ -121,11 +131,12 @@ def step (st : St) (op impl : List String) : St × List String :=
     match impl with
     | r :: _ =>
       if r == "nil" then
-        -- the statement of C09 wants an error from a Shutdown that a teardown cut short; the code returns nil as soon as
-        -- closeWriteLoopCh is closed, whatever closed it (known finding K09-shutdown-nil)
+        -- C09 DEMANDS an error from a Shutdown that a teardown cut short (former finding D22 / K09-shutdown-nil, fixed in
+        -- /repo 52b27be): nil is legitimate only if this side was handed the peer's SHUTDOWN-ACK or SHUTDOWN-COMPLETE
+        -- (or already answered the SHUTDOWN-ACK with its SHUTDOWN-COMPLETE)
         let cut := (st.mode == "teardown" || st.mode == "storm") && !st.sdDone.contains (nat side)
         ({ st with shutdownOk := nat side :: st.shutdownOk },
-          if cut then [s!"[C09] Shutdown on side {side} returned nil although the shutdown sequence never completed (no SHUTDOWN-COMPLETE sent or received; the association was torn down: {st.injected})"] else [])
+          if cut then [s!"[C09,C08] Shutdown on side {side} returned nil although the peer never acknowledged the SHUTDOWN (no SHUTDOWN-ACK / SHUTDOWN-COMPLETE reached this side; the association was torn down: {st.injected})"] else [])
       else (st, [])
     | _ => (st, [])
   | ["wlate", dir, si, _len, hash] =>
